@@ -378,7 +378,8 @@ def unit_disturb(unit):
 
     def probes():
         return [Vector(list(range(30)), name="p"), Table({"a": list(range(30)), "b": [str(i) for i in range(30)]}), Vector([1, 2, 3, 4, 5]),
-                Table({"a": [1, 2, 3]}), Vector([float(i) for i in range(13)])]
+                Table({"a": [1, 2, 3]}), Vector([float(i) for i in range(13)]),
+                Table({f"c{i}": [i, i + 1] for i in range(12)}), Table({f"c{i}": [str(i)] for i in range(11)})]      # wider than the column limit
 
     def with_override(t, k):
         t._repr_rows = k
@@ -405,7 +406,7 @@ def unit_disturb(unit):
     base = [repr(p) for p in probes()]
     seqs = [(d,) for d in disturbers] + [(a, b) for a in disturbers for b in disturbers if a is not b]
     for seq in seqs:
-        agg.evals += 1; agg.transitions += len(seq) + 5; agg.states += 1; agg.nontrivial += 1; agg.compared += 5
+        agg.evals += 1; agg.transitions += len(seq) + 7; agg.states += 1; agg.nontrivial += 1; agg.compared += 7
         labels = [d[0] for d in seq]
         for _, th in seq:
             try:
